@@ -238,7 +238,7 @@ def run(ctx, out):
     lap("model checking and self-tests done")
     # ---- S2C: reachable files -> real track directories -> real loader
     dump_file = dump + ".dump" if os.path.exists(dump + ".dump") else dump
-    cases, per_rule, nstates = cases_from_dump(ctx, dump_file, rnd, {"none": 100000} if ctx.quick else {"none": 15000}, 150 if ctx.quick else 1500)
+    cases, per_rule, nstates = cases_from_dump(ctx, dump_file, rnd, {"none": 100000} if ctx.quick else {"none": 25000}, 150 if ctx.quick else 2000)
     if nstates != res.distinct:
         raise tlc.MachineryError("dump has %d states, TLC reported %d" % (nstates, res.distinct))
     missing = [r for r in L1_RULES if per_rule.get(r, 0) == 0]
